@@ -121,6 +121,30 @@ def r08_2(ctx):
     ctx.check("build_arg_list count mismatch raises", all(o.kind == "raise" for o in outs), "raises", str([outcome_text(o)[:30] for o in outs]), fn_where(idx, fi))
 
 
+def return_ends_routine(ctx):
+    """`return e;` is lowered to the store SETL("ret_val", e) - correct only if nothing of the routine runs after it.  For a return that
+    is not the last statement on its path the compiler has to do something more than the store: leave the routine, guard what follows,
+    or reject the body.  Decided here: the return branch of jump_stmt produces more than the plain store, or records the return in
+    state that a later callback can act on."""
+    idx = get_index(ctx.env)
+    fi = idx.func("RZILTransformer.jump_stmt")
+    branch = None
+    for n in ast.walk(fi.node):
+        if isinstance(n, ast.If) and isinstance(n.test, ast.Compare) and any(isinstance(c, ast.Constant) and c.value == "return" for c in n.test.comparators) and "items[0]" in U(n.test.left):
+            branch = n
+            break
+    ctx.need(branch is not None, "jump_stmt: the `return` branch was not found")
+    rets = [n for s_ in branch.body for n in ast.walk(s_) if isinstance(n, ast.Return)]
+    raises_ = [n for s_ in branch.body for n in ast.walk(s_) if isinstance(n, ast.Raise)]
+    nodes = sorted({call_name(c) for r_ in rets if r_.value is not None for c in ast.walk(r_.value) if isinstance(c, ast.Call) and call_name(c)[:1].isupper()})
+    state = sorted({U(t) for s_ in branch.body for n in ast.walk(s_) if isinstance(n, (ast.Assign, ast.AugAssign))
+                    for t in (n.targets if isinstance(n, ast.Assign) else [n.target]) if isinstance(t, ast.Attribute) and U(t.value).startswith("self")})
+    only_store = nodes == ["Assignment"] and not state and len(raises_) <= 1
+    ctx.check("a return that is not the last statement of its path: the statements behind it do not run", not only_store,
+              "the return leaves the routine, guards what follows, or such a body is rejected",
+              f"the return branch builds {nodes} and records nothing ({state}): statements behind a return still run, the last store into ret_val wins", fn_where(idx, fi))
+
+
 @rule("R08.3", "C08", "return protocol: writer and readers agree on the local `ret_val`; the writer widens to 64 bit, readers narrow by the declared return type; the call node carries the declared return type", min_instances=8)
 def r08_3(ctx):
     idx = get_index(ctx.env)
@@ -242,6 +266,76 @@ def r08_5(ctx):
               "a per-routine component in the name (set before the body is transformed, separated from the counter and from the default prefix by a non-digit)", obs, fn_where(idx, rh))
 
 
+def _skip_ws(t, i):
+    while i < len(t) and t[i].isspace():
+        i += 1
+    return i
+
+
+def _skip_block(t, i):
+    """t[i] == '{' (or '('): index behind the matching closer"""
+    op, cl = t[i], {"{": "}", "(": ")"}[t[i]]
+    depth = 0
+    while i < len(t):
+        if t[i] == op:
+            depth += 1
+        elif t[i] == cl:
+            depth -= 1
+            if depth == 0:
+                return i + 1
+        i += 1
+    return i
+
+
+def return_is_last(code: str, pos: int) -> bool:
+    """`return` is compiled to a store into ret_val; nothing leaves the routine.  So whatever a C return skips must not exist: behind the
+    `return <e>;` at pos only closing braces and the else-branches of the ifs being closed may follow"""
+    i = code.index(";", pos) + 1
+    while True:
+        i = _skip_ws(code, i)
+        if i >= len(code):
+            return True
+        if code[i] == "}":
+            i += 1
+            j = _skip_ws(code, i)
+            while code.startswith("else", j) and not (code[j + 4:j + 5].isalnum() or code[j + 4:j + 5] == "_"):
+                j = _skip_ws(code, j + 4)
+                if code.startswith("if", j):
+                    j = _skip_ws(code, j + 2)
+                    if j < len(code) and code[j] == "(":
+                        j = _skip_ws(code, _skip_block(code, j))
+                if j < len(code) and code[j] == "{":
+                    j = _skip_block(code, j)
+                else:
+                    j = code.index(";", j) + 1 if ";" in code[j:] else len(code)
+                i = j
+                j = _skip_ws(code, j)
+            continue
+        return False
+
+
+def return_positions_lint(ctx):
+    """resource lint over the bundled routine bodies: every `return` stands where nothing can follow it at run time"""
+    p = ctx.env.repo / "Resources" / "Hexagon" / "sub_routines.json"
+    ctx.need(p.is_file(), f"anchor missing: {p}")
+    data = json.loads(p.read_text())["sub_routines"]
+    n = 0
+    for name, r in sorted(data.items()):
+        code = r["code"]
+        early = [code[m.start():m.start() + 40] for m in re.finditer(r"\breturn\b", code) if not return_is_last(code, m.start())]
+        n += len(re.findall(r"\breturn\b", code))
+        ctx.check(f"routine {name}: every return is the last thing on its path", not early, "only closing braces / else-branches behind a return",
+                  f"statements follow {early[:2]}: the compiled return only stores ret_val, the following statements still run and the last store wins" if early else "ok",
+                  "Resources/Hexagon/sub_routines.json")
+    ctx.check("return statements inspected", n >= 10, ">= 10", str(n), "Resources/Hexagon/sub_routines.json", nontrivial=False)
+    # self-check of the position analysis on four shapes
+    shapes = [("{ if (x) { return 1; } else { return 2; } }", [True, True]), ("{ if (x) { return 1; } y = 2; return y; }", [False, True]),
+              ("{ if (x) { return 1; } else if (z) { y = 1; } else { y = 2; } }", [True]), ("{ return 1; y = 2; }", [False])]
+    for code, exp in shapes:
+        got = [return_is_last(code, m.start()) for m in re.finditer(r"\breturn\b", code)]
+        ctx.check(f"position analysis on `{code[:40]}`", got == exp, str(exp), str(got), "verif/rules/c08.py", nontrivial=False)
+
+
 @rule("R08.6", "C08", "resource lint: locals of the bundled routines are pairwise disjoint (flat IL namespace); bodies that use operands take the bundle; prologue rule for pkt/hi", min_instances=12)
 def r08_6(ctx):
     idx = get_index(ctx.env)
@@ -267,6 +361,7 @@ def r08_6(ctx):
         for b in range(a + 1, len(names)):
             common = sorted(locals_[names[a]] & locals_[names[b]])
             ctx.check(f"locals of {names[a]} / {names[b]} disjoint", not common, "no common local names", str(common), rel, nontrivial=False)
+    return_positions_lint(ctx)
     # prologue rule
     fi = idx.func("SubRoutine.check_for_bundle_usage")
     for code, exp in (("x = pkt->a;", ["pkt"]), ("y = ISA2REG(hi, 's');", ["hi"]), ("READ_REG(pkt, x); ISA2REG(hi, 's');", ["hi", "pkt"]), ("a = b;", []), ("pktx = 1; this = 2;", [])):
@@ -386,3 +481,8 @@ def r08_10(ctx):
                 got = sorted({(o.value.fields.get("_signed"), o.value.fields.get("_bit_width")) if o.kind == "return" and isinstance(o.value, AObj) else ("RAISE",) for o in outs})
                 ctx.check(f"Parameter of type {'s' if signed else 'u'}{w}{' const' if 'CONST' in groups else ''}", got == [(signed, w)], str((signed, w)), str(got), fn_where(idx, fi), nontrivial=(w < 32))
     small_literal_typing(ctx)
+
+
+@rule("R08.11", "C08", "a routine body computes what its C source computes also around `return`: nothing of the body runs after a return", min_instances=1)
+def r08_11(ctx):
+    return_ends_routine(ctx)
